@@ -50,6 +50,38 @@ def space_relation(geo, test_x, trial_x):
     return 'disjoint-same-piece' if same else 'disjoint-other-piece'
 
 
+def corner_nearness(geo, x, y):
+    """For two parameter intervals on DIFFERENT pieces of a polygon (a corner, or the closing seam, between them):
+    ('touch', H/h) if they meet in the corner, ('disjoint', H/gap) otherwise, with H, h the longer / shorter length and the gap
+    measured along the curve (through the seam when that is shorter). None for the same piece, the circle, or overlapping intervals."""
+    if geo.circle or geo.piece_of(*x) == geo.piece_of(*y):
+        return None
+    (x0, x1), (y0, y1) = x, y
+    if min(x1, y1) > max(x0, y0):
+        return None
+    H, h = max(x1 - x0, y1 - y0), min(x1 - x0, y1 - y0)
+    gap = max(y0 - x1, x0 - y1)
+    if geo.closed:
+        gap = min(gap, geo.length - max(x1, y1) + min(x0, y0))
+    if gap <= 0:
+        return ('touch', H / h)
+    return ('disjoint', H / gap)
+
+
+def k4_envelope(near):
+    """Recorded accuracy limit K4 (known-findings.txt, DESIGN.md section 6): the graded (12,12) log rule used for two panels around a corner.
+    Measured on the unchanged tree over 42 000 synthetic pairs (three polygons, length ratios 2..512, gaps 1/32..4 of the shorter length,
+    aspects 1..32, four time relations): error <= 7e-8 * H/gap for disjoint pairs (above the demanded 1e-7 from H/gap ~ 14 on) and
+    <= 1.4e-9 * H/h for pairs touching in the corner (above 1e-7 from H/h ~ 128 on). Returns the bound up to which a deviation is
+    attributed to that mechanism (three times the measured envelope), or None outside its region."""
+    if near is None:
+        return None
+    kind, rho = near
+    if kind == 'disjoint':
+        return min(2e-7 * rho, 6e-5) if rho >= 8 else None
+    return min(5e-9 * rho, 6e-5) if rho >= 64 else None
+
+
 def size_ratio(test, trial):
     r = max(test.h_x / trial.h_x, trial.h_x / test.h_x, test.h_t / trial.h_t, trial.h_t / test.h_t)
     return r
